@@ -19,7 +19,17 @@ import Mathlib.Data.Rat.Floor
 
 The base cases and `inv` are *parameters* (`Params`): the plan names them, `UnOp.toOp` plugs in the
 matrices an oracle supplies (LAPACK's `eigh`/`eig`, the Krylov factorisations, `inv` = C06), and the
-theorems state the contracts under which they are right.
+theorems state the contracts under which they are right.  One level lower (`Lemmas/UnaryEig.lean`,
+`EigOracle`): the oracle supplies only the eigendecomposition `V, d, Vi`, the matrix is BUILT as the code
+builds it (`V @ Diagonal(f(d)) @ Vi`), and `UnOp.SoundE` states contracts only.
+
+The Krylov operators (`LanczosUnary._matmat`, `ArnoldiUnary._matmat`, /repo 25c506e): `lanczos` / `arnoldi`
+on the operand, buffers trimmed to the executed steps `k = max(iterations - 1, 1)`, `eigh(T[:k,:k])` resp.
+`eig(H[:k,:k])`, weights `w = conj(P)[0, :] ‖v‖` resp. `solve(P, e₀) ‖v‖`, result
+`Q P where(w == 0, 0, f(θ) * w)` (`_weighted`: a Ritz pair of zero weight is skipped whatever `f` is there).
+Formal counterparts: `KrylovPoly.krylovVec` (the formula), `KrylovPoly.weighted` / `krylovW_end_to_end` (the
+guard, with a partial `f`), `KrylovCompose.{lanczos,arnoldi}_unary_exact` (on the loop models of C14 / C15),
+`Model/KrylovExact.lean` (executable, exact, for polynomial `f`).
 -/
 
 namespace Unary
